@@ -128,6 +128,7 @@ type Tables struct {
 	Hex  [][2]string `json:"hexaddr"` // text, "1"/"0" = common.IsHexAddress(text)
 	Den  [][2]string `json:"denom"`   // text, "1"/"0" = sdk.ValidateDenom(text) == nil
 	Name [][2]string `json:"name"`    // text, "1"/"0" = host.ClientIdentifierValidator(text) == nil
+	Acc  [][2]string `json:"acc"`     // text, "1"/"0" = sdk.AccAddressFromBech32(text) returns no error
 }
 
 func hx(b []byte) string  { return hlib.Hex(b) }
@@ -230,11 +231,12 @@ type tabler struct {
 	hexa map[string]string
 	den  map[string]string
 	name map[string]string
+	acc  map[string]string
 }
 
 func newTabler(a *app.Teleport) *tabler {
 	return &tabler{a: a, cs: map[string]StateRow{}, cons: map[string]StateRow{}, rel: map[string]RelRow{}, tp: map[string]PairRow{},
-		sha: map[string]string{}, addr: map[string]string{}, hexa: map[string]string{}, den: map[string]string{}, name: map[string]string{}}
+		sha: map[string]string{}, addr: map[string]string{}, hexa: map[string]string{}, den: map[string]string{}, name: map[string]string{}, acc: map[string]string{}}
 }
 
 func (t *tabler) clientState(cs exported.ClientState) string {
@@ -280,6 +282,8 @@ func (t *tabler) text(s string) {
 	t.hexa[k] = b01(common.IsHexAddress(s))
 	t.den[k] = b01(sdk.ValidateDenom(s) == nil)
 	t.name[k] = b01(host.ClientIdentifierValidator(s) == nil)
+	_, err := sdk.AccAddressFromBech32(s)
+	t.acc[k] = b01(err == nil)
 }
 
 func (t *tabler) pair(p aggtypes.TokenPair) PairP {
@@ -305,8 +309,10 @@ func (t *tabler) pair(p aggtypes.TokenPair) PairP {
 
 func (t *tabler) relayer(r clienttypes.IdentifiedRelayer) RelP {
 	rp := RelP{Address: hs(r.Address), Chains: []string{}, Addresses: []string{}}
+	t.text(r.Address)
 	for _, c := range r.Chains {
 		rp.Chains = append(rp.Chains, hs(c))
+		t.text(c)
 	}
 	for _, c := range r.Addresses {
 		rp.Addresses = append(rp.Addresses, hs(c))
@@ -386,7 +392,7 @@ func sortedPairs(m map[string]string) [][2]string {
 
 func (t *tabler) tables() *Tables {
 	tb := &Tables{CS: sortedRows(t.cs), Cons: sortedRows(t.cons), Rel: []RelRow{}, TP: []PairRow{},
-		Sha: sortedPairs(t.sha), Addr: sortedPairs(t.addr), Hex: sortedPairs(t.hexa), Den: sortedPairs(t.den), Name: sortedPairs(t.name)}
+		Sha: sortedPairs(t.sha), Addr: sortedPairs(t.addr), Hex: sortedPairs(t.hexa), Den: sortedPairs(t.den), Name: sortedPairs(t.name), Acc: sortedPairs(t.acc)}
 	for _, r := range t.rel {
 		tb.Rel = append(tb.Rel, r)
 	}
